@@ -233,6 +233,41 @@ impl Clients {
         }
     }
 
+    /// Verification hook: the registry's internal shape (per endpoint the inactive connections in
+    /// stored order followed by the active one, and the sent-to relation), used only to tell
+    /// implementation states apart during state-space exploration.
+    #[cfg(iroh_verif)]
+    pub fn verif_fingerprint(
+        &self,
+    ) -> (
+        Vec<(EndpointId, Vec<ConnectionId>)>,
+        Vec<(EndpointId, Vec<EndpointId>)>,
+    ) {
+        let mut reg: Vec<_> = self
+            .0
+            .clients
+            .iter()
+            .map(|e| {
+                let mut conns: Vec<_> = e.inactive.iter().map(|c| c.connection_id()).collect();
+                conns.push(e.active.connection_id());
+                (*e.key(), conns)
+            })
+            .collect();
+        reg.sort_by_key(|e| e.0);
+        let mut sent: Vec<_> = self
+            .0
+            .sent_to
+            .iter()
+            .map(|e| {
+                let mut peers: Vec<_> = e.value().iter().copied().collect();
+                peers.sort();
+                (*e.key(), peers)
+            })
+            .collect();
+        sent.sort_by_key(|e| e.0);
+        (reg, sent)
+    }
+
     #[cfg(test)]
     fn active_connection_id(&self, endpoint_id: EndpointId) -> Option<ConnectionId> {
         self.0
